@@ -227,6 +227,8 @@ m("crlf-fix-lone-cr", "_rewrite_code.py", '        if isinstance(newlines, str) 
 m("minmax-count-revert", "_snapshot/min_max_value.py", "        if ignore_old_value() or state().update_flags.create:", "        if ignore_old_value() or state().update_flags.create:\n            return True\n        if False:", ["C07"], "revert: failing bounds under fix/update are green")
 m("persist-star-revert2", "_external.py", '            name = f"{stem}*{dot}{suffix}"', '            name = f"{stem}{dot}{suffix}"', ["C13"], "revert variant: full-hash names not globbed")
 m("relative-to-cwd-revert", "pytest_plugin.py", "                        try:\n                            name = file.filename.relative_to(Path.cwd())\n                        except ValueError:\n                            # pytest was started outside of the directory of the test file\n                            name = file.filename\n", "                        name = file.filename.relative_to(Path.cwd())\n", ["C18", "C04"], "revert: session started in another directory crashes at session end")
+m("undecided-update-whole-arg-revert", "_snapshot/undecided_value.py", "                        node=node,\n", "                        node=self._ast_node,\n", ["C05", "C10", "C18"], "revert: a never-compared snapshot is replaced as a whole by the code of one element")
+m("undecided-update-fstring-revert", "_snapshot/undecided_value.py", "                and not isinstance(node, ast.JoinedStr)\n", "", ["C10"], "revert: f-strings inside never-compared snapshots are replaced by update")
 m("run-inline-external-import-only", "testing/_example.py", '                    if used_hasrepr(tree):\n                        required_imports.append("HasRepr")', '                    if used_hasrepr(tree) and used_externals(tree):\n                        required_imports.append("HasRepr")', ["C19"], "HasRepr import only added together with external")
 
 
